@@ -106,13 +106,88 @@ class _Canonical(ast.NodeTransformer):
         return node
 
 
+def _inline_returned_temporaries(tree):
+    '''x = E ; return x  ->  return E   when x is a local name that is read
+    nowhere else in the function (part of the canonical normal form: a
+    result computed into a temporary right before it is returned).'''
+    for func in [n for n in ast.walk(tree)
+                 if isinstance(n, (ast.FunctionDef, ast.AsyncFunctionDef))]:
+        loads = {}
+        stores = {}
+        for node in ast.walk(func):
+            if isinstance(node, ast.Name):
+                if isinstance(node.ctx, ast.Load):
+                    loads[node.id] = loads.get(node.id, 0) + 1
+                else:
+                    stores[node.id] = stores.get(node.id, 0) + 1
+        params = {a.arg for a in func.args.args + func.args.kwonlyargs +
+                  func.args.posonlyargs}
+        # adjacent  x = E ; return x  pairs per name
+        pairs = {}
+
+        def count(body):
+            for idx, stmt in enumerate(body):
+                nxt = body[idx + 1] if idx + 1 < len(body) else None
+                if isinstance(stmt, ast.Assign) and len(stmt.targets) == 1 \
+                        and isinstance(stmt.targets[0], ast.Name) and \
+                        isinstance(nxt, ast.Return) and isinstance(
+                            nxt.value, ast.Name) and \
+                        nxt.value.id == stmt.targets[0].id:
+                    pairs[nxt.value.id] = pairs.get(nxt.value.id, 0) + 1
+                for fld in ('body', 'orelse', 'finalbody'):
+                    sub = getattr(stmt, fld, None)
+                    if isinstance(sub, list) and sub and isinstance(
+                            sub[0], ast.stmt) and not isinstance(
+                                stmt, (ast.FunctionDef, ast.ClassDef,
+                                       ast.AsyncFunctionDef)):
+                        count(sub)
+                for hdl in getattr(stmt, 'handlers', []) or []:
+                    count(hdl.body)
+        count(func.body)
+
+        def rewrite(body):
+            out = []
+            idx = 0
+            while idx < len(body):
+                stmt = body[idx]
+                nxt = body[idx + 1] if idx + 1 < len(body) else None
+                if isinstance(stmt, ast.Assign) and len(stmt.targets) == 1 \
+                        and isinstance(stmt.targets[0], ast.Name) and \
+                        isinstance(nxt, ast.Return) and isinstance(
+                            nxt.value, ast.Name) and \
+                        nxt.value.id == stmt.targets[0].id and \
+                        loads.get(nxt.value.id, 0) == \
+                        stores.get(nxt.value.id, 0) == \
+                        pairs.get(nxt.value.id, -1) and \
+                        nxt.value.id not in params:
+                    out.append(ast.copy_location(
+                        ast.Return(value=stmt.value), stmt))
+                    idx += 2
+                    continue
+                for fld in ('body', 'orelse', 'finalbody'):
+                    sub = getattr(stmt, fld, None)
+                    if isinstance(sub, list) and sub and isinstance(
+                            sub[0], ast.stmt) and not isinstance(
+                                stmt, (ast.FunctionDef, ast.ClassDef,
+                                       ast.AsyncFunctionDef)):
+                        setattr(stmt, fld, rewrite(sub))
+                for hdl in getattr(stmt, 'handlers', []) or []:
+                    hdl.body = rewrite(hdl.body)
+                out.append(stmt)
+                idx += 1
+            return out
+        func.body = rewrite(func.body)
+    return tree
+
+
 class Module:
     def __init__(self, name, path, relpath, src):
         self.name = name
         self.path = path
         self.relpath = relpath
         self.src = src
-        self.tree = _Canonical().visit(ast.parse(src, filename=path))
+        self.tree = _inline_returned_temporaries(
+            _Canonical().visit(ast.parse(src, filename=path)))
         self.digest = hashlib.sha256(src.encode('utf-8')).hexdigest()
         self.functions = {}     # qual -> FuncInfo
         self.classes = {}       # qual -> ClassInfo
